@@ -43,9 +43,44 @@ MUTANTS: List[Tuple[str, str, str, str, List[str]]] = [
 
         # 3.""", "\n        # 3.", ["C04", "C09"]),
     ("swap-thread-main-arms", H, "if xn.resource == Resource.thread:", "if xn.resource == Resource.main_thread:", ["C04"]),
-    ("await-async-in-place", H, """exec_future_async = asyncio.ensure_future(
-                to_thread_in_executor(xn.execute, executor, results=results, profiles=profiles)
+    ("await-async-in-place", H, """exec_future_async = to_thread_in_executor(
+                xn.execute, executor, results=results, profiles=profiles
             )""", "exec_future_async = await to_thread_in_executor(xn.execute, executor, results=results, profiles=profiles)", ["C04"]),
+    ("return-node-id-from-repr", N, 'return f"{func.__qualname__}{RETURN_NAME_SEP}{suffix}"', 'return f"{func}{RETURN_NAME_SEP}{suffix}"', ["C18", "C20"]),
+    ("return-node-not-rebuildable", N, """class ReturnExecNode(ExecNode):
+    \"\"\"ExecNode corresponding to a constant Return value of a DAG.\"\"\"
+
+    def __init__(self, id_: Identifier, **_kwargs: Any) -> None:""", """class ReturnExecNode(ExecNode):
+    \"\"\"ExecNode corresponding to a constant Return value of a DAG.\"\"\"
+
+    def __init__(self, id_: Identifier) -> None:""", ["C20"]),
+    ("subdag-stub-env-sequential", D, """                    is_sequential=False,
+                    resource=consts.Resource.main_thread,""", """                    resource=consts.Resource.main_thread,""", ["C08"]),
+    ("setup-default-target-all-setup-nodes", D, """            target_nodes = self.get_multiple_nodes_aliases(target_nodes)
+
+        # 2.""", """            target_nodes = self.get_multiple_nodes_aliases(target_nodes)
+        else:
+            target_nodes = self.graph_ids.setup_nodes
+
+        # 2.""", ["C11", "C12"]),
+    ("executor-setup-re-resolves", D, "        self.dag._run_setup(self.dag._only_setup_nodes(deepcopy(self.graph)))",
+     "        self.dag.setup(target_nodes=self.target_nodes, exclude_nodes=self.exclude_nodes, root_nodes=self.root_nodes)", ["C11", "C12"]),
+    ("executor-setup-unfiltered-graph", D, "        self.dag._run_setup(self.dag._only_setup_nodes(deepcopy(self.graph)))",
+     "        self.dag._run_setup(deepcopy(self.graph))", ["C11", "C15"]),
+    ("pre-setup-crossed-resolution", D, "            root_nodes = self.get_multiple_nodes_aliases(root_nodes)",
+     "            root_nodes = self.get_multiple_nodes_aliases(exclude_nodes)", ["C11", "C12"]),
+    ("splice-kwargs-of-stale-loop-variable", D, "for id_, uxn in exec_node.kwargs.items()", "for id_, uxn in xn.kwargs.items()", ["C20"]),
+    ("splice-type-of-stale-loop-variable", D, "node.exec_nodes[new_id] = type(exec_node)(**values)", "node.exec_nodes[new_id] = type(xn)(**values)", ["C20"]),
+    ("compose-rewire-to-old-id", D, "xn.kwargs[xn_dep_name] = UsageExecNode(new_id, xn_dep.key)", "xn.kwargs[xn_dep_name] = UsageExecNode(old_id, xn_dep.key)", ["C19"]),
+    ("cache-dump-unfiltered", D, "pickle.dump(to_cache_results, f,", "pickle.dump(results, f,", ["C18"]),
+    ("async-dispatch-lazy-task-again", H, [
+        ("\ndef to_thread_in_executor(", "\nasync def to_thread_in_executor("),
+        ("    return loop.run_in_executor(executor, func_call)", "    return await loop.run_in_executor(executor, func_call)"),
+        ("""exec_future_async = to_thread_in_executor(
+                xn.execute, executor, results=results, profiles=profiles
+            )""", """exec_future_async = asyncio.ensure_future(
+                to_thread_in_executor(xn.execute, executor, results=results, profiles=profiles)
+            )""")], None, ["C08", "C14", "C06"]),
     ("maxc-lt-1-to-lt-0", D, "if self.max_concurrency < 1:", "if self.max_concurrency < 0:", ["C04"]),
     ("seqpre-ne0-to-gt1", H, "if xn.is_sequential and running_threads() != 0:", "if xn.is_sequential and running_threads() > 1:", ["C05"]),
     ("seqpre-deleted", H, "if xn.is_sequential and running_threads() != 0:", "if False and running_threads() != 0:", ["C05"]),
@@ -306,6 +341,10 @@ REPLACE_ALL = {"helper-no-result-check"}
 
 # benign variants: behaviour-preserving edits that must not raise an alarm in any property
 BENIGN: List[Tuple[str, str, List[Tuple[str, str]]]] = [
+    ("rename-setup-helpers", D, [("_run_setup", "_execute_setup_graph"), ("_only_setup_nodes", "_drop_ordinary_nodes")]),
+    ("return-node-id-local", N, [('    suffix = make_suffix(name_or_order)\n    return f"{func.__qualname__}{RETURN_NAME_SEP}{suffix}"',
+                                   '    suffix = make_suffix(name_or_order)\n    base: str = func.__qualname__\n    return f"{base}{RETURN_NAME_SEP}{suffix}"')]),
+    ("async-wrapper-future-local", H, [("    return loop.run_in_executor(executor, func_call)", "    fut = loop.run_in_executor(executor, func_call)\n    return fut")]),
     ("not-runnable", H, [("or len(runnable_xns_ids) == 0:", "or not runnable_xns_ids:"), ("        if len(runnable_xns_ids) == 0:", "        if not runnable_xns_ids:")]),
     ("bound-ge", H, [("if running_threads() == max_concurrency or", "if running_threads() >= max_concurrency or")]),
     ("post-drain-first-completed", H, [("                ALL_COMPLETED, graph, conc_futures", "                FIRST_COMPLETED, graph, conc_futures"),
